@@ -95,6 +95,8 @@ def _copy(d):
 def asarray(I, x, dtype=None):
     if isinstance(x, NdArr) and dtype is None:
         return x
+    if isinstance(x, NdArr) and x.data is not None and norm_dtype(dtype) == (x.dtype or "float"):
+        return x          # numpy: asarray of an array that already has the requested dtype is that very array (no copy)
     d = to_data(I, x)
     dt = norm_dtype(dtype)
     if dt in ("float", "int"):
@@ -601,6 +603,34 @@ def install(I, mkcls, meth):
     reg("sqrt")(lambda i, a, k: sqrt(i, a[0]) if not isinstance(a[0], NdArr) else mk(_map(a[0].data, lambda x: sqrt(i, x))))
     reg("abs")(lambda i, a, k: i.call(i.builtins["abs"], [a[0]], {}) if not isinstance(a[0], NdArr) else mk(_map(a[0].data, lambda x: i.call(i.builtins["abs"], [x], {}))))
     E["numpy.linalg.norm"] = Builtin("np.linalg.norm", lambda i, a, k: norm(i, a[0], k.get("axis")), T)
+
+    def _rounding(kind):
+        def one(i, x):
+            if type(x) in (int, float):
+                import numpy as _n
+                return float({"rint": round, "round": round, "floor": __import__("math").floor, "ceil": __import__("math").ceil}[kind](x))
+            kd = num_kind(x)
+            if kd is None:
+                raise Unsupported(f"np.{kind} on {x!r}")
+            zx = to_z3(x, "real")
+            f = z3.ToReal(z3.ToInt(zx))
+            if kind == "floor":
+                return SV(f, "real")
+            if kind == "ceil":
+                return SV(z3.If(f == zx, f, f + 1), "real")
+            # round half to even
+            d = zx - f
+            even = z3.ToInt(zx) % 2 == 0
+            return SV(z3.If(d < z3.RealVal("1/2"), f, z3.If(d > z3.RealVal("1/2"), f + 1, z3.If(even, f, f + 1))), "real")
+
+        def fn(i, a, k):
+            if len(a) > 1 or k.get("decimals"):
+                raise Unsupported(f"np.{kind} with decimals")
+            x = a[0]
+            return mk(_map(x.data, lambda y: one(i, y))) if isinstance(x, NdArr) else one(i, x)
+        return fn
+    for _k in ("rint", "round", "floor", "ceil"):
+        reg(_k)(_rounding(_k))
 
     @reg("vstack")
     def _vstack(i, a, k):
